@@ -183,10 +183,291 @@ def error_kinds():
     return "".join(out)
 
 
+
+# ----------------------------------------------------------------- Transfer (C12)
+
+def _rust_str_unescape(body):
+    """value of a Rust string literal body with only `\\`, `\"`, `\n`, `\t`, `\r`, `\0` escapes"""
+    out, i = [], 0
+    simple = {"\\": "\\", '"': '"', "n": "\n", "t": "\t", "r": "\r", "0": "\0", "'": "'"}
+    while i < len(body):
+        c = body[i]
+        if c == "\\":
+            if i + 1 >= len(body) or body[i + 1] not in simple:
+                raise ExtractError("string literal %r uses an escape this extractor does not know" % body)
+            out.append(simple[body[i + 1]])
+            i += 2
+        else:
+            out.append(c)
+            i += 1
+    return "".join(out)
+
+
+def _nat_list(s):
+    return "[" + ", ".join(str(ord(c)) for c in s) + "]"
+
+
+def _macro_args(src, open_paren):
+    """top-level comma-separated arguments of the macro call whose `(` is at `open_paren`;
+    returns (args, index after the closing paren)"""
+    depth, j, in_str, cur, args = 0, open_paren, False, [], []
+    while j < len(src):
+        c = src[j]
+        if in_str:
+            cur.append(c)
+            if c == "\\":
+                cur.append(src[j + 1])
+                j += 1
+            elif c == '"':
+                in_str = False
+        elif c == '"':
+            in_str = True
+            cur.append(c)
+        elif c in "([{":
+            depth += 1
+            if depth > 1:
+                cur.append(c)
+        elif c in ")]}":
+            depth -= 1
+            if depth == 0:
+                args.append("".join(cur).strip())
+                return [a for a in args if a != ""], j + 1
+            cur.append(c)
+        elif c == "," and depth == 1:
+            args.append("".join(cur).strip())
+            cur = []
+        else:
+            cur.append(c)
+        j += 1
+    raise ExtractError("write!: unbalanced parentheses")
+
+
+def transfer():
+    """hydration_context/src/ssr.rs: every `write!` whose format string prints an argument with
+    `{:?}` (the places where a Rust string becomes a JavaScript string literal), and for each the
+    `.replace(char, "…")` calls applied to that argument beforehand in the same function."""
+    rel = "hydration_context/src/ssr.rs"
+    src = strip_rust_comments(read_repo(rel))
+    sites = []
+    attributed_replaces = 0
+    for m in re.finditer(r"\bwrite!\s*\(", src):
+        args, _ = _macro_args(src, m.end() - 1)
+        if len(args) < 2 or not (args[1].startswith('"') and args[1].endswith('"')):
+            raise ExtractError("write!: second argument is not a string literal: %r" % args[:2])
+        fmt = _rust_str_unescape(args[1][1:-1])
+        holes = re.findall(r"\{[^{}]*\}", fmt)
+        if any(h not in ("{}", "{:?}") for h in holes):
+            raise ExtractError("write!: unexpected placeholder in %r" % fmt)
+        if "{:?}" not in holes:
+            continue
+        if holes.count("{:?}") != 1 or len(holes) != len(args) - 2:
+            raise ExtractError("write!: %r does not have exactly one {:?} / one argument per hole" % fmt)
+        dbg_arg = re.sub(r"\s+", "", args[2 + holes.index("{:?}")])
+        fns = list(re.finditer(r"\bfn\s+(\w+)", src[:m.start()]))
+        if not fns:
+            raise ExtractError("write!(%r): no enclosing fn" % fmt)
+        fn_name, fn_start = fns[-1].group(1), fns[-1].start()
+        repl = []
+        if re.fullmatch(r"\w+", dbg_arg):
+            scope = src[fn_start:m.start()]
+            lets = list(re.finditer(
+                r"\blet\s+" + re.escape(dbg_arg) + r"\s*=\s*(\w+)((?:\s*\.\s*replace\s*\(\s*'(?:[^'\\]|\\.)'\s*,\s*\"(?:[^\"\\]|\\.)*\"\s*\))+)\s*;",
+                scope))
+            if lets:
+                for r in re.finditer(r"\.\s*replace\s*\(\s*'((?:[^'\\]|\\.))'\s*,\s*\"((?:[^\"\\]|\\.)*)\"\s*\)", lets[-1].group(2)):
+                    ch = _rust_str_unescape(r.group(1))
+                    repl.append((ch, _rust_str_unescape(r.group(2))))
+                    attributed_replaces += 1
+        sites.append((fn_name, fmt, dbg_arg, repl))
+    total_replaces = len(re.findall(r"\.\s*replace\s*\(", src))
+    if total_replaces != attributed_replaces:
+        raise ExtractError("%d `.replace(` calls in %s but only %d are applied to a {:?} argument in the recognised form"
+                           % (total_replaces, rel, attributed_replaces))
+    if not sites:
+        raise ExtractError("no write!(.., \"..{:?}..\", ..) found in %s" % rel)
+    out = []
+    out.append("/-! GENERATED by /verif/extract.py Transfer from %s — do not edit.\n\n" % rel)
+    out.append("Every `write!` that prints an argument with `{:?}` (a Rust string becoming a JavaScript string\n"
+               "literal), in source order: (enclosing fn, format string, replacements `(char, text)` applied with\n"
+               "`.replace` to that argument before printing).  All strings are lists of code points. -/\n")
+    out.append("namespace Leptos.Gen.Transfer\n\n")
+    items = []
+    for fn_name, fmt, dbg_arg, repl in sites:
+        items.append("-- fn %s: write!(.., %s, .., %s)\n    (%s, %s, [%s])" % (
+            fn_name, json_like(fmt), dbg_arg, _nat_list(fn_name), _nat_list(fmt),
+            ", ".join("(%d, %s)" % (ord(c), _nat_list(t)) for c, t in repl)))
+    out.append("def debugSites : List (List Nat × List Nat × List (Nat × List Nat)) := %s\n\n" % lean_list(items))
+    out.append("end Leptos.Gen.Transfer\n")
+    return "".join(out)
+
+
+def json_like(s):
+    return '"' + s.replace("\\", "\\\\").replace('"', '\\"') + '"'
+
+
+# ----------------------------------------------------------------- EscapeTables, Elements (C06, C18)
+
+def _lean_char(c):
+    if c == "'":
+        return "'\\''"
+    if c == "\\":
+        return "'\\\\'"
+    if not (32 <= ord(c) < 127):
+        raise ExtractError("unexpected non-printable character %r in a table" % c)
+    return "'%s'" % c
+
+
+def _lean_char_list(s):
+    return "[" + ", ".join(_lean_char(c) for c in s) + "]"
+
+
+def _html_escape_src():
+    """src/encode/html_entity/mod.rs of the html-escape version pinned in /repo/Cargo.lock"""
+    lock = read_repo("Cargo.lock")
+    m = re.search(r'name = "html-escape"\s*\nversion = "([^"]+)"', lock)
+    if not m:
+        raise ExtractError("html-escape is not in /repo/Cargo.lock")
+    ver = m.group(1)
+    import glob
+    home = os.environ.get("CARGO_HOME", os.path.expanduser("~/.cargo"))
+    cands = sorted(glob.glob(os.path.join(home, "registry", "src", "*", "html-escape-" + ver,
+                                          "src", "encode", "html_entity", "mod.rs")))
+    if not cands:
+        raise ExtractError("vendored source of html-escape %s not found under %s/registry/src" % (ver, home))
+    with open(cands[0], encoding="utf-8") as f:
+        return ver, f.read()
+
+
+def _escape_macro_rows(src, name):
+    m = re.search(r"escape_impl!\s*\{\s*" + re.escape(name) + r"\s*;(.*?)\}", src, flags=re.S)
+    if not m:
+        raise ExtractError("escape_impl! { %s; … } not found" % name)
+    body = m.group(1)
+    row_re = re.compile(r"b'(\\?.)'\s*=>\s*b\"([^\"\\]*)\"\s*,")
+    rows = [(r.group(1), r.group(2)) for r in row_re.finditer(body)]
+    if not rows or row_re.sub("", body).strip():
+        raise ExtractError("escape_impl! %s: unexpected row syntax: %r" % (name, row_re.sub("", body).strip()[:80]))
+    out = []
+    for ch, ent in rows:
+        if ch.startswith("\\"):
+            if ch not in ("\\'", "\\\\"):
+                raise ExtractError("escape_impl! %s: unknown byte escape %r" % (name, ch))
+            ch = ch[1]
+        out.append((ch, ent))
+    return out
+
+
+def escape_tables():
+    """html-escape: the byte -> entity rows of `escape_text` and `escape_double_quote`, plus the check
+    that tachys still calls exactly `encode_text` for text and `encode_double_quoted_attribute` for
+    attribute values and that those two functions are generated from those two row macros."""
+    ver, src = _html_escape_src()
+    src = strip_rust_comments(src)
+    text_rows = _escape_macro_rows(src, "escape_text")
+    attr_rows = _escape_macro_rows(src, "escape_double_quote")
+    for macro, fn in (("escape_text", "encode_text"), ("escape_double_quote", "encode_double_quoted_attribute")):
+        if not re.search(r"encode_impl!\s*\{\s*" + macro + r"\s*;\s*" + fn + r"\s*;", src):
+            raise ExtractError("encode_impl! no longer builds %s from %s" % (fn, macro))
+    strings = strip_rust_comments(read_repo("tachys/src/view/strings.rs"))
+    calls = re.findall(r"html_escape::(\w+)\s*\(", strings)
+    if calls != ["encode_text"]:
+        raise ExtractError("tachys/src/view/strings.rs: expected exactly one html_escape call, encode_text; found %r" % calls)
+    if not re.search(r"else\s+if\s+escape\s*\{\s*let\s+escaped\s*=\s*html_escape::encode_text\(self\);\s*buf\.push_str\(&escaped\);", strings):
+        raise ExtractError("tachys/src/view/strings.rs: the `else if escape { encode_text }` branch changed shape")
+    value = strip_rust_comments(read_repo("tachys/src/html/attribute/value.rs"))
+    m = re.search(r"fn\s+escape_attr\s*\([^)]*\)\s*->\s*[^{]*\{\s*html_escape::(\w+)\s*\(\s*value\s*\)\s*\}", value)
+    if not m or m.group(1) != "encode_double_quoted_attribute":
+        raise ExtractError("tachys/src/html/attribute/value.rs: escape_attr is no longer `html_escape::encode_double_quoted_attribute(value)`")
+    n_escape_calls = len(re.findall(r"escape_attr\s*\(", value)) - 1
+    out = []
+    out.append("/-! GENERATED by /verif/extract.py EscapeTables from html-escape %s (src/encode/html_entity/mod.rs)\n"
+               "and tachys/src/{view/strings.rs, html/attribute/value.rs} — do not edit.\n\n" % ver)
+    out.append("`escapeText`: rows of `escape_text` (= `html_escape::encode_text`, the only html_escape call in\n"
+               "strings.rs); `escapeDoubleQuote`: rows of `escape_double_quote` (= `encode_double_quoted_attribute`\n"
+               "= tachys `escape_attr`); `escapeAttrCallsInValueRs`: how often value.rs calls `escape_attr`. -/\n")
+    out.append("namespace Leptos.Gen.EscapeTables\n\n")
+    out.append("def escapeText : List (Char × List Char) := %s\n\n" % lean_list(
+        ["(%s, %s)" % (_lean_char(c), _lean_char_list(e)) for c, e in text_rows]))
+    out.append("def escapeDoubleQuote : List (Char × List Char) := %s\n\n" % lean_list(
+        ["(%s, %s)" % (_lean_char(c), _lean_char_list(e)) for c, e in attr_rows]))
+    out.append("def escapeAttrCallsInValueRs : Nat := %d\n\n" % n_escape_calls)
+    out.append("end Leptos.Gen.EscapeTables\n")
+    return "".join(out)
+
+
+def elements():
+    """tachys/src/html/element/elements.rs: every (tag, SELF_CLOSING, ESCAPE_CHILDREN) row;
+    leptos_macro/src/view/mod.rs: the `is_self_closing` list and the hard-coded no-escape list."""
+    rel = "tachys/src/html/element/elements.rs"
+    src = strip_rust_comments(read_repo(rel))
+    rows = []
+    row_re = re.compile(r"\b([a-z][a-z0-9]*)\s+(?:[A-Z]\w*\s+)?([A-Z]\w*)\s*\[[^\]]*\]\s*(true|false)\s*,?")
+
+    def block(name, self_closing):
+        """rows of the top-level invocations `name! { … }` (uses inside macro bodies contain `$`)"""
+        found, seen = [], 0
+        for m in re.finditer(r"(?<!macro_rules! )\b" + name + r"!\s*\{", src):
+            body = section(src[m.start():], name + r"!\s*\{", name + "!")[1:-1]
+            if "$" in body:
+                continue
+            seen += 1
+            got = [(r.group(1), self_closing, r.group(3) == "true") for r in row_re.finditer(body)]
+            rest = row_re.sub("", body).strip()
+            if not got or rest:
+                raise ExtractError("%s!: unexpected row syntax near %r" % (name, rest[:80]))
+            found += got
+        if seen != 1:
+            raise ExtractError("%s!: expected exactly one top-level invocation, found %d" % (name, seen))
+        return found
+    rows += block("html_self_closing_elements", True)
+    rows += block("html_elements", False)
+    rows += block("html_element_inner", False)
+    # the two macros must still set the constants from their position / literal
+    if not re.search(r"const\s+SELF_CLOSING\s*:\s*bool\s*=\s*true\s*;\s*const\s+ESCAPE_CHILDREN\s*:\s*bool\s*=\s*\$escape\s*;", src) or \
+       not re.search(r"const\s+SELF_CLOSING\s*:\s*bool\s*=\s*false\s*;\s*const\s+ESCAPE_CHILDREN\s*:\s*bool\s*=\s*\$escape\s*;", src):
+        raise ExtractError("elements.rs: SELF_CLOSING / ESCAPE_CHILDREN are no longer set as `true|false` / `$escape`")
+    tags = [t for t, _, _ in rows]
+    if len(set(tags)) != len(tags):
+        raise ExtractError("elements.rs: duplicate tag rows")
+    custom = strip_rust_comments(read_repo("tachys/src/html/element/custom.rs"))
+    if not re.search(r"const\s+SELF_CLOSING\s*:\s*bool\s*=\s*false\s*;", custom) or \
+       not re.search(r"const\s+ESCAPE_CHILDREN\s*:\s*bool\s*=\s*true\s*;", custom):
+        raise ExtractError("custom.rs: custom elements are no longer (not self-closing, escaping)")
+    mrel = "leptos_macro/src/view/mod.rs"
+    msrc = strip_rust_comments(read_repo(mrel))
+    fn = section(msrc, r"fn\s+is_self_closing\s*\(", "is_self_closing")
+    m = re.search(r"\[\s*((?:\"[a-z0-9]+\"\s*,?\s*)+)\]\s*\.\s*binary_search", fn)
+    if not m:
+        raise ExtractError("is_self_closing: literal list not found")
+    macro_void = re.findall(r"\"([a-z0-9]+)\"", m.group(1))
+    noesc = re.findall(r"let\s+escape\s*=\s*((?:el_name\s*!=\s*\"[a-z]+\"\s*(?:&&)?\s*)+);", msrc)
+    if not noesc:
+        raise ExtractError("leptos_macro: `let escape = el_name != …` not found")
+    lists = [re.findall(r"\"([a-z]+)\"", x) for x in noesc]
+    if any(l != lists[0] for l in lists):
+        raise ExtractError("leptos_macro: the no-escape lists differ between sites: %r" % lists)
+    out = []
+    out.append("/-! GENERATED by /verif/extract.py Elements from %s and %s — do not edit.\n\n" % (rel, mrel))
+    out.append("`rows`: (tag, SELF_CLOSING, ESCAPE_CHILDREN) of every element of elements.rs, in source order\n"
+               "(custom elements: not self-closing, escaping — checked by the extractor);\n"
+               "`macroSelfClosing`: the list in `is_self_closing`; `macroNoEscape`: the tags the `view!` macro\n"
+               "excludes from escaping (%d sites, identical). -/\n" % len(lists))
+    out.append("namespace Leptos.Gen.Elements\n\n")
+    out.append("def rows : List (List Char × Bool × Bool) := %s\n\n" % lean_list(
+        ["(%s, %s, %s)" % (_lean_char_list(t), "true" if v else "false", "true" if e else "false") for t, v, e in rows]))
+    out.append("def macroSelfClosing : List (List Char) := %s\n\n" % lean_list([_lean_char_list(t) for t in macro_void]))
+    out.append("def macroNoEscape : List (List Char) := %s\n\n" % lean_list([_lean_char_list(t) for t in lists[0]]))
+    out.append("end Leptos.Gen.Elements\n")
+    return "".join(out)
+
+
 # ----------------------------------------------------------------- registry
 
 TABLES = {
     "ErrorKinds": error_kinds,
+    "Transfer": transfer,
+    "EscapeTables": escape_tables,
+    "Elements": elements,
 }
 
 
